@@ -38,10 +38,10 @@ FORMS = ("def1", "defdoc", "lambda", "multi", "effect", "xmod", "closure")
 # call sites: lambda e over an event; {H} the helper name; argument expressions chosen so that some mention names
 # that are also bound inside helper bodies (t, j, x, y, e)
 SITES = {
-    ("Int",): ["{H}(e.a)", "{H}(x=e.a)", "{H}(e.a) + {H}(e.b)", "e.jets.Select(lambda x: {H}(x.pt))",
+    ("Int",): ["e.jets.Select(lambda OFF: {H}(OFF.pt))", "[{H}(OFF.pt + e.a) for OFF in e.jets]", "{H}(e.a)", "{H}(x=e.a)", "{H}(e.a) + {H}(e.b)", "e.jets.Select(lambda x: {H}(x.pt))",
                "e.jets.Select(lambda y: {H}(y.pt + e.a))", "e.jets.Select(lambda t: {H}(t.pt))",
                "e.jets.Select(lambda s: {H}(s.pt))", "e.jets.Select(lambda v: {H}(v.pt + e.a))"],
-    ("Jet",): ["e.jets.Select(lambda j: {H}(j))", "e.jets.Select(lambda x: {H}(x))", "e.jets.Select(lambda t: {H}(t))",
+    ("Jet",): ["e.jets.Select(lambda OFF: {H}(OFF))", "[{H}(OFF) for OFF in e.jets if OFF.pt > 0]", "e.jets.Select(lambda j: {H}(j))", "e.jets.Select(lambda x: {H}(x))", "e.jets.Select(lambda t: {H}(t))",
                "e.jets.Select(lambda j: {H}(x=j))", "e.jets.Where(lambda j: j.pt > 0).Select(lambda j: ({H}(j), e.a))"],
     ("Ev",): ["{H}(e)", "{H}(x=e)", "({H}(e), e.a)"],
     ("Int*",): ["e.jets.Select(lambda t: {H}(t.pt)(1)(2))", "{H}(e.a)(1)(2)", "e.jets.Select(lambda t_1: {H}(t_1.pt)(1)(2))",
